@@ -867,10 +867,12 @@ fn exec_op(ctx: &mut Ctx, op: &Value, ev: &mut Map<String, Value>) {
             };
             let parsed = p.verif_parse_results();
             let mut keys: Vec<String> = Vec::new();
+            let mut rids: Vec<Value> = Vec::new();
             let mut obs: BTreeMap<String, Value> = BTreeMap::new();
             for (k, fr) in res.iter() {
                 let kn = idname(&scratch, k);
                 keys.push(kn.clone());
+                rids.push(json!([kn, idname(&scratch, &fr.id)]));
                 let (v, _) = project_result(fr, parsed.get(k), &kn, &scratch, None);
                 obs.insert(kn, v);
             }
@@ -910,7 +912,9 @@ fn exec_op(ctx: &mut Ctx, op: &Value, ev: &mut Map<String, Value>) {
                 }
             }
             ev.insert("imps".into(), Value::Object(imps));
+            rids.sort_by_key(|x| x.to_string());
             ev.insert("keys".into(), json!(keys));
+            ev.insert("rids".into(), json!(rids));
             ev.insert("dig".into(), Value::Object(digs));
             ev.insert("sdig".into(), Value::Object(sdigs));
             ev.insert("kk".into(), json!(kk));
